@@ -419,6 +419,80 @@ def check_search_evaluated(repo: Repo, rep: Report, tier: str) -> None:
         if not bad_k:
             rep.ok("all-keys", f"{fq} :: {n_valid} valid identifiers", "one condition per key, on the key's column")
         rep.floor("identifiers evaluated through search()", n, 500)
+        # the same, with the matching types mixed in one identifier (range / wildcard / list / universal next to single
+        # values): what search() filters by must be the union of what each key filters by on its own
+        rep.rule("keys-compose", "the conditions of an identifier are the union of the conditions each of its keys gives on its own, whatever the matching types of its neighbours (range, wildcard, list, universal)")
+
+        def kinds_of(kw):
+            vr = q.vr_of(kw)
+            single = _sample(vr, kw)
+            out = {"single": single, "universal": ""}
+            if vr == "DA":
+                out.update({"range": "20200101-20201231", "from": "20200101-", "until": "-20201231"})
+            elif vr == "TM":
+                out.update({"range": "080000-170000", "from": "080000-", "until": "-170000"})
+            elif vr == "UI":
+                out["list"] = [single, single + ".9"]
+            elif vr in ("LO", "SH", "PN", "CS"):
+                out["wildcard"] = "A*" if vr != "PN" else _sample_pn("D*")
+            return out
+
+        def _sample_pn(text):
+            from ..qr_eval import PNValue
+
+            return PNValue(text)
+
+        n_mix = bad_mix = 0
+        for m in (MODELS[0], MODELS[3]):
+            model = g[m]
+            attr = g["_PATIENT_ROOT"].get(model) or g["_STUDY_ROOT"].get(model)
+            levels = list(attr)
+            for qi, qlevel in enumerate(levels):
+                above = {attr[lv][0]: _sample(q.vr_of(attr[lv][0]), attr[lv][0]) for lv in levels[:qi]}
+                here = list(attr[qlevel])
+                scen = []
+                opts = {kw: kinds_of(kw) for kw in here}
+                # every key in its most special matching type
+                scen.append({kw: next((o[k_] for k_ in ("range", "list", "wildcard") if k_ in o), o["single"]) for kw, o in opts.items()})
+                # one key special (each type it has), the others single values / universal
+                for kw, o in opts.items():
+                    for k_, v in o.items():
+                        if k_ == "single":
+                            continue
+                        for rest in ("single", "universal"):
+                            sc_ = {k2: opts[k2][rest] for k2 in here if k2 != kw}
+                            sc_[kw] = v
+                            scen.append(sc_)
+                for sc_ in scen:
+                    for order in (here, list(reversed(here))):
+                        vals = {"QueryRetrieveLevel": qlevel}
+                        vals.update(above)
+                        for kw in order:
+                            vals[kw] = sc_[kw]
+                        kind, out = q.search(m, vals)
+                        n_mix += 1
+                        shown = {k: (v if isinstance(v, (str, list)) else str(getattr(v, "_minipy_str", v))) for k, v in vals.items()}
+                        if kind != "conds":
+                            bad_mix += 1
+                            if bad_mix <= 3:
+                                rep.fail("keys-compose", fq, f"{m}: identifier {shown} -> raises {out}", "a valid identifier whose keys use different matching types must be searched", mod=db, node=db.funcs.get("search"))
+                            continue
+                        want = []
+                        for kw in [k for k in vals if k != "QueryRetrieveLevel"]:
+                            k1, o1 = q.conds_for({kw: vals[kw]})
+                            if k1 != "conds":
+                                raise Unsupported(f"build_query raises {o1} for the single key {kw}")
+                            want += [(c.col, c.op, _form(c.value)) for c in o1]
+                        got = sorted((c.col, c.op, _form(c.value)) for c in out)
+                        if got != sorted(want):
+                            bad_mix += 1
+                            if bad_mix <= 3:
+                                miss = [w for w in sorted(want) if w not in got]
+                                more = [w for w in got if w not in want]
+                                rep.fail("keys-compose", fq, f"{m}: identifier {shown} -> conditions {out}", f"every key of the identifier must restrict the result, each the way it does on its own (PS3.4 C.2.2.2: an entity matches when all keys match){'; not applied: ' + str(miss) if miss else ''}{'; applied although no key asks for it: ' + str(more) if more else ''} - a key whose matching type starts a new query drops the conditions of the keys before it", mod=db, node=db.funcs.get("search"))
+        if not bad_mix:
+            rep.ok("keys-compose", f"{fq} :: {n_mix} identifiers with mixed matching types", "conditions = union of the per-key conditions, in either key order")
+        rep.floor("mixed-type identifiers evaluated through search()", n_mix, 100)
         # stored form against compared form
         find = MODELS[0]
         attr = g["_PATIENT_ROOT"][g[find]]
